@@ -50,13 +50,12 @@ def run(R, env):
             continue
         shared.hook_sender(R, env, prog, dctx, table[v], v, role, "C09.R2")
         h = handler_ctx(prog, dctx, table[v])
-        for bi, atom in h.atoms():
-            if atom[0] == "bool":
-                for s_ in subterms(atom[1]):
-                    if s_[0] == "call" and len(s_[2]) == 3:
-                        cb = shared._body_of_call(prog, s_)
-                        if cb is not None and shared.is_derivation_fn(prog, cb.key):
-                            derivs.add(cb.key)
+        # the derivation proper: the function(s) reachable from the handler that bech32-encode a SHA-256 digest themselves
+        from engine.analysis import reachable_bodies
+        for k_ in reachable_bodies(prog, [h.body.key]):
+            b_ = prog.bodies[k_]
+            if b_.kind == "fn" and b_.nargs == 3 and any((call_name(t_) or "").startswith("bech32::encode") for _, t_ in b_.calls()) and shared.is_derivation_fn(prog, k_):
+                derivs.add(k_)
     R.floor("C09.R1", "derivation functions used by the acceptance sites", len(derivs), 1)
     for dk in sorted(derivs):
         b = prog.body(dk)
@@ -98,6 +97,14 @@ def run(R, env):
         fl = [f for f in prog.formats if f["crate"] == CRATE and f["file"] == b.span["file"] and b.span["line"] <= f["line"] <= b.span["line"] + 25]
         pieces = [p.get("lit", "{%s}" % p.get("arg")) for p in fl[0]["pieces"]] if len(fl) == 1 else None
         okk = K[0] == "call" and K[1] == "std::fmt::format" and fa == [("chan",), ("sender",)] and pieces == ["{0}", "/", "{1}"]
+        if not okk:
+            # byte-level spelling: [channel bytes, b"/", sender bytes].concat()
+            for s_ in subterms(K):
+                if s_[0] == "call" and s_[1].endswith("slice::concat") and s_[2] and s_[2][0][0] == "array":
+                    segs = [("{0}" if e_ == ("chan",) else "{1}" if e_ == ("sender",) else const_str(e_)) for e_ in s_[2][0][1]]
+                    if segs == ["{0}", "/", "{1}"] and norm(K) == norm(s_):
+                        okk = True
+                    pieces, fa = segs, []
         R.ob("C09.R1", "key-is-channel/sender", okk, "second operand = format template %s over arguments %s; expected \"{channel}/{sender}\"" % (pieces, [fmt(a) for a in fa]), fn=dk)
     # ------------------------------------------------------------ R3
     ctors = []
